@@ -50,6 +50,11 @@ func c13Message(kind int) wsMsg {
 		return wsMsg{mt, d}
 	case 2: // short, for multi-message sessions
 		return wsMsg{mt, vBytes(vChoice(3))}
+	case 3: // the 16/64-bit length form boundary in one frame
+		n := []int{65535, 65536}[vChoice(2)]
+		d := vPattern(n, 29)
+		d[0], d[n-1] = vU8(), vU8()
+		return wsMsg{mt, d}
 	}
 	max := 6
 	if vTier() == 1 {
@@ -164,7 +169,8 @@ func HarnessC13_RoundTrip() {
 	// scenario 0: one message of 0..6 bytes, small write buffers, every API
 	// scenario 1: one message at a length-form boundary, every API
 	// scenario 2: two short messages (three in the thorough tier), two APIs
-	scenario := vChoice(3)
+	// scenario 3: one message around 65535/65536 bytes in a single frame (write buffer 70000)
+	scenario := vChoice(4)
 	wbuf, n, kind := 0, 1, 0
 	apis := []int{0, 1, 2, 3, 4, 5}
 	switch scenario {
@@ -173,6 +179,10 @@ func HarnessC13_RoundTrip() {
 	case 1:
 		wbuf = []int{16, 0}[vChoice(2)] // 0 = the default 4096
 		kind = 1
+	case 3:
+		wbuf = 70000
+		kind = 3
+		apis = []int{0, 1}
 	case 2:
 		wbuf = []int{1, 4}[vChoice(2)]
 		n, kind = 2, 2
@@ -231,7 +241,7 @@ func HarnessC13_TruncWriter() {
 	n := vChoice(11)
 	data := vBytes(n)
 	cw := &collectWriter{}
-	tw := &truncWriter{w: nopCloser{cw}}
+	tw := &truncWriter{w: vNopCloser{cw}}
 	a := vChoice(n + 1)
 	b := a + vChoice(n-a+1)
 	for _, part := range [][]byte{data[:a], data[a:b], data[b:]} {
@@ -254,6 +264,6 @@ func HarnessC13_TruncWriter() {
 	vReach("truncwriter")
 }
 
-type nopCloser struct{ io.Writer }
+type vNopCloser struct{ io.Writer }
 
-func (nopCloser) Close() error { return nil }
+func (vNopCloser) Close() error { return nil }
